@@ -69,7 +69,15 @@ pub struct GraphOpts {
     pub obs: ObsLevel,
     pub prof: Profile,
     pub enc: TextEncoding,
+    /// cumulative thresholds (out of 100) for: commit, empty, iso, merge, deliver, fork, forkat,
+    /// setactor, saveload, missing (rest: getchanges)
+    pub weights: [usize; 10],
+    /// start with a fork that keeps the actor id of its origin
+    pub twin_start: bool,
 }
+
+pub const W_DEFAULT: [usize; 10] = [34, 38, 46, 56, 78, 84, 88, 91, 95, 98];
+pub const W_DUP: [usize; 10] = [36, 38, 40, 50, 88, 92, 92, 95, 98, 99];
 
 /// Random program mixing commits, empty commits, isolated commits, merges, out-of-order and
 /// duplicated deliveries through several ingestion paths, forks (including forks that keep an
@@ -82,6 +90,14 @@ pub fn graph_scenario(idx: usize, rng: &mut Rng, o: &GraphOpts, family: &str) ->
         w.add_rep(next_actor);
         next_actor += 1;
     }
+    if o.twin_start {
+        let k = rng.below(3);
+        for _ in 0..k {
+            w.commit(0, rng, &o.prof, 1, None, None);
+        }
+        w.fork(0, 1);
+    }
+    let wt = o.weights;
     for _ in 0..o.steps {
         if w.dead {
             break;
@@ -90,16 +106,16 @@ pub fn graph_scenario(idx: usize, rng: &mut Rng, o: &GraphOpts, family: &str) ->
         let r = rng.below(n);
         let total = w.known.len();
         let c = rng.below(100);
-        if c < 34 {
+        if c < wt[0] {
             if total < o.max_changes {
                 let k = 1 + rng.below(3);
                 w.commit(r, rng, &o.prof, k, None, None);
             }
-        } else if c < 38 {
+        } else if c < wt[1] {
             if total < o.max_changes {
                 w.empty_commit(r);
             }
-        } else if c < 46 {
+        } else if c < wt[2] {
             if total < o.max_changes {
                 let h = random_antichain(&w, r, rng);
                 if !h.is_empty() {
@@ -107,10 +123,10 @@ pub fn graph_scenario(idx: usize, rng: &mut Rng, o: &GraphOpts, family: &str) ->
                     w.commit(r, rng, &o.prof, k, None, Some(h));
                 }
             }
-        } else if c < 56 {
+        } else if c < wt[3] {
             let s = rng.below(n);
             w.merge(r, s);
-        } else if c < 78 {
+        } else if c < wt[4] {
             // deliver some subset of another replica's (or all known) changes, shuffled
             let pool: Vec<String> = if rng.chance(1, 4) {
                 w.known.keys().cloned().collect()
@@ -131,7 +147,7 @@ pub fn graph_scenario(idx: usize, rng: &mut Rng, o: &GraphOpts, family: &str) ->
             }
             let via = *rng.pick(&["apply", "batch", "each", "loadinc"]);
             w.deliver(r, via, &batch);
-        } else if c < 84 {
+        } else if c < wt[5] {
             if n < o.max_reps {
                 let actor = if o.dup_actors && rng.chance(1, 3) {
                     enc::actor_num(w.reps[r].get_actor()) as u8
@@ -141,14 +157,14 @@ pub fn graph_scenario(idx: usize, rng: &mut Rng, o: &GraphOpts, family: &str) ->
                 };
                 w.fork(r, actor);
             }
-        } else if c < 88 {
+        } else if c < wt[6] {
             if n < o.max_reps {
                 let h = random_antichain(&w, r, rng);
                 let h = if rng.chance(1, 8) { vec![unknown_hash(rng)] } else { h };
                 next_actor += 1;
                 w.fork_at(r, &h, next_actor - 1);
             }
-        } else if c < 91 {
+        } else if c < wt[7] {
             let actor = if o.dup_actors && rng.chance(1, 2) {
                 1 + rng.below((next_actor - 1) as usize) as u8
             } else {
@@ -156,9 +172,9 @@ pub fn graph_scenario(idx: usize, rng: &mut Rng, o: &GraphOpts, family: &str) ->
                 next_actor - 1
             };
             w.set_actor(r, actor);
-        } else if c < 95 {
+        } else if c < wt[8] {
             w.save_load(r, rng.chance(1, 2), rng.chance(3, 4));
-        } else if c < 98 {
+        } else if c < wt[9] {
             let mut hs = random_antichain(&w, rng.below(n), rng);
             if rng.chance(1, 3) {
                 hs.push(unknown_hash(rng));
